@@ -219,6 +219,7 @@ struct World {
     leaves: u8,
     /// sessions that finished successfully at node n (its store may then list the peer)
     ok_completions: [u32; 2],
+    real_accepts: u8,
 }
 
 /// How the next event is chosen.
@@ -424,6 +425,7 @@ async fn run_world(f: &mut Fixture, ns: NamespaceId, not_syncing: NamespaceId, m
         next_hash: 0,
         leaves: 0,
         ok_completions: [0, 0],
+        real_accepts: 0,
     };
 
     // (I5, lifecycle) node 1 syncs `not_syncing`, node 0 only holds it: node 1's dial must be declined as not found, the
@@ -494,6 +496,8 @@ async fn run_world(f: &mut Fixture, ns: NamespaceId, not_syncing: NamespaceId, m
             Join(usize),
             Queue(usize),
             Ready(usize, bool),
+            /// a real accepting side (`BobState::run` on the node's own store actor) whose first message fails locally
+            RealFailingAccept(usize),
         }
         let mut enabled: Vec<Ev> = vec![];
         if !draining && w.dials < max_dials {
@@ -522,6 +526,9 @@ async fn run_world(f: &mut Fixture, ns: NamespaceId, not_syncing: NamespaceId, m
                 if !w.queued[n].is_empty() {
                     enabled.push(Ev::Ready(n, true));
                     enabled.push(Ev::Ready(n, false));
+                }
+                if w.syncing[n] && w.inflight.is_empty() && w.real_accepts < 2 {
+                    enabled.push(Ev::RealFailingAccept(n));
                 }
             }
         }
@@ -693,6 +700,55 @@ async fn run_world(f: &mut Fixture, ns: NamespaceId, not_syncing: NamespaceId, m
                     o.fail(
                         "C11/I5-left-document-syncing-again",
                         format!("step {}: a download completion at node {n} changed whether the document is synced there (model {}, node {})", w.step, w.syncing[n], !w.syncing[n]),
+                    );
+                    return Ok(());
+                }
+            }
+            Ev::RealFailingAccept(n) => {
+                // the peer's request arrives at node n, the live actor decides, and the *real* acceptor runs on node n's store
+                // actor with sync switched off for the document, so that handling the first message fails locally; the
+                // error it reports is fed to the real completion handler: the slot must be free again afterwards
+                w.real_accepts += 1;
+                let me = w.map[n];
+                let peer = f.ids[w.map[1 - n]];
+                let decision = f.actors[me].accept_sync_request(w.ns, peer);
+                let allowed = matches!(decision, AcceptOutcome::Allow);
+                let h = f.actors[me].verif_sync_handle();
+                es(h.set_sync(w.ns, false).await)?;
+                let init = {
+                    let mut scratch = Store::memory();
+                    es(scratch.import_namespace(iroh_docs::Capability::Read(w.ns)))?;
+                    let m = es(es(scratch.open_replica(&w.ns))?.sync_initial_message())?;
+                    iroh_docs::verif::net::Frame::init(w.ns, m)
+                };
+                let (peer_io, bob_io) = tokio::io::duplex(1 << 16);
+                let (br, bw) = tokio::io::split(bob_io);
+                let (_pr, mut pw) = tokio::io::split(peer_io);
+                {
+                    use tokio::io::AsyncWriteExt;
+                    use tokio_util::codec::Encoder;
+                    let mut buf = bytes::BytesMut::new();
+                    es(iroh_docs::verif::net::FrameCodec::default().encode(init, &mut buf))?;
+                    es(pw.write_all(&buf).await)?;
+                    let _ = pw.shutdown().await;
+                }
+                let mut st = iroh_docs::verif::net::BobState::new(peer);
+                let d2 = decision.clone();
+                let res = tokio::time::timeout(std::time::Duration::from_secs(20), st.run(bw, br, h.clone(), move |_n, _p| std::future::ready(d2.clone()))).await;
+                es(h.set_sync(w.ns, true).await)?;
+                let Ok(res) = res else { return Err("real acceptor did not finish within 20 s".into()) };
+                o.class(if allowed { "real-acceptor-failed-on-its-first-message(after-allow)" } else { "real-acceptor-declined" });
+                let res = match res {
+                    Ok(_) => return Err("the acceptor was expected to fail (sync is off for the document)".into()),
+                    Err(e) => e,
+                };
+                let started = f.actors[me].verif_accept_finished(Err(res)).await;
+                note_followup(&mut w, n, started, o, "the real acceptor's end");
+                let after = snapshot(f, &w, n).await;
+                if allowed && is_running(&after) {
+                    o.fail(
+                        "C11/I4-stuck-running-accept",
+                        format!("step {}: node {n} allowed a request, the accepting side failed on the first message and reported its error, but the node still marks the peer as {:?}", w.step, after),
                     );
                     return Ok(());
                 }
